@@ -130,6 +130,21 @@ FAMILIES["stream"] = {
                     "AES-GCM results enter the model as tables computed with the Go standard library"],
 }
 
+FAMILIES["probe"] = {
+    "name": "probe", "props": ["C19"], "models": "Probe.v",
+    "harness": COMMON + ["zz_vf_wire_test.go", "zz_vf_probe_test.go"], "test": "TestVfProbe",
+    "n": {"quick": 800, "thorough": 20000}, "no_shrink": True,
+    "codes": [(400, 409, ["C19"])],
+    "code_names": {1: "undecodable case",
+                   400: "C19: health score left [0, max-1]", 401: "C19: pending-probe record still registered after its deadline",
+                   402: "C19: probe verdict differs from 'a matching ack arrived before the deadline (or the TCP fallback round-tripped)'",
+                   403: "C19: health score moved by another amount than the probe outcome prescribes",
+                   404: "C19: relayed ack does not carry the requester's sequence number", 405: "C19: relay reused the requester's sequence number",
+                   406: "C19: relay sent more than one ack / nack, or both", 407: "C19: relay outcome differs from the model"},
+    "assumptions": ["arrivals never coincide with the probe timeout or deadline (odd microsecond offsets): equal-instant ordering is scheduler dependent",
+                    "random peer selection (kRandomNodes) enters through what the transport observed"],
+}
+
 # a property may be served by several families (run in order); the first is its primary one
 PROPS = {}
 for f, d in sorted(FAMILIES.items(), key=lambda kv: 0 if kv[0] in ("susp", "queue", "wire", "stream") else 1):
